@@ -110,6 +110,12 @@ def minmax (t : RType) (max : Bool) (prev : Int) (first : Bool) (base : Option (
       | none => if max then t.hi else t.lo
     if !first && !ascending max x prev then .error .exist else .ok (x, 0)
 
+/-- which of the candidate repairs (fixes/F30.diff, fixes/F51.diff) the modelled source contains -/
+structure RFix where
+  f30 : Bool := false   -- `|` is refused when no part was started since the previous `|`
+  f51 : Bool := false   -- a number / `max` that would open a new part is refused while the previous part is not closed by `|`
+  deriving Repr, DecidableEq
+
 structure PS where
   rparts : List Part := []   -- `parts`, last one first
   done : Nat := 0            -- parts_done
@@ -117,7 +123,7 @@ structure PS where
   deriving Repr
 
 /-- the `while (1)` loop of `lys_compile_type_range`; result: `parts` and the final `parts_done` -/
-def loop (t : RType) (base : Option (List Part)) : Nat → Bytes → PS → Except RErr (List Part × Nat)
+def loop (fx : RFix) (t : RType) (base : Option (List Part)) : Nat → Bytes → PS → Except RErr (List Part × Nat)
   | 0, _, _ => .error .int
   | fuel + 1, e, s =>
     match e with
@@ -126,18 +132,18 @@ def loop (t : RType) (base : Option (List Part)) : Nat → Bytes → PS → Exce
       else if s.rparts.isEmpty || s.done == s.rparts.length then .error .valid
       else .ok (s.rparts.reverse, s.done + 1)
     | c :: rest =>
-      if isSpace c then loop t base fuel rest s
+      if isSpace c then loop fx t base fuel rest s
       else if startsWith e kwMin then
         if !s.rparts.isEmpty then .error .valid
         else match minmax t false 0 true base none with
           | .error er => .error er
-          | .ok (x, _) => loop t base fuel (e.drop 3) { s with rparts := [⟨x, x⟩] }
+          | .ok (x, _) => loop fx t base fuel (e.drop 3) { s with rparts := [⟨x, x⟩] }
       else if c == chBar then
-        if s.rparts.isEmpty || s.rexp then .error .valid
-        else loop t base fuel rest { s with done := s.done + 1 }
+        if s.rparts.isEmpty || s.rexp || (fx.f30 && s.done == s.rparts.length) then .error .valid
+        else loop fx t base fuel rest { s with done := s.done + 1 }
       else if startsWith e kwDots then
         if s.rparts.isEmpty || s.rparts.length == s.done then .error .valid
-        else loop t base fuel ((e.drop 2).dropWhile isSpace) { s with rexp := true }
+        else loop fx t base fuel ((e.drop 2).dropWhile isSpace) { s with rexp := true }
       else if isDigit c || c == chMinus || c == chPlus then
         if s.rexp then
           match s.rparts with
@@ -145,12 +151,13 @@ def loop (t : RType) (base : Option (List Part)) : Nat → Bytes → PS → Exce
           | p :: ps =>
             match minmax t true p.min false none (some e) with
             | .error er => .error er
-            | .ok (x, len) => loop t base fuel (e.drop len) { s with rparts := { p with max := x } :: ps, rexp := false }
+            | .ok (x, len) => loop fx t base fuel (e.drop len) { s with rparts := { p with max := x } :: ps, rexp := false }
+        else if fx.f51 && !s.rparts.isEmpty && s.done != s.rparts.length then .error .valid
         else
           let prev : Int := if s.done ≠ 0 then (s.rparts.head?.map (·.max)).getD 0 else 0
           match minmax t false prev (s.done == 0) none (some e) with
           | .error er => .error er
-          | .ok (x, len) => loop t base fuel (e.drop len) { s with rparts := ⟨x, x⟩ :: s.rparts }
+          | .ok (x, len) => loop fx t base fuel (e.drop len) { s with rparts := ⟨x, x⟩ :: s.rparts }
       else if startsWith e kwMax then
         if !((e.drop 3).dropWhile isSpace).isEmpty then .error .valid
         else if s.rexp then
@@ -159,12 +166,13 @@ def loop (t : RType) (base : Option (List Part)) : Nat → Bytes → PS → Exce
           | p :: ps =>
             match minmax t true p.min false base none with
             | .error er => .error er
-            | .ok (x, _) => loop t base fuel [] { s with rparts := { p with max := x } :: ps, rexp := false }
+            | .ok (x, _) => loop fx t base fuel [] { s with rparts := { p with max := x } :: ps, rexp := false }
+        else if fx.f51 && !s.rparts.isEmpty && s.done != s.rparts.length then .error .valid
         else
           let prev : Int := if s.done ≠ 0 then (s.rparts.head?.map (·.max)).getD 0 else 0
           match minmax t true prev (s.done == 0) base none with
           | .error er => .error er
-          | .ok (x, _) => loop t base fuel [] { s with rparts := ⟨x, x⟩ :: s.rparts }
+          | .ok (x, _) => loop fx t base fuel [] { s with rparts := ⟨x, x⟩ :: s.rparts }
       else .error .valid
 
 /-- the `for (u = v = 0; u < parts_done && v < COUNT(base); ++u)` walk. `--u; ++v; continue` followed by the loop's
@@ -190,8 +198,8 @@ def walk (parts base : List Part) (done : Nat) : Nat → Nat → Nat → Except 
     else .ok (u == done)
 
 /-- `lys_compile_type_range` -/
-def compileRange (t : RType) (base : Option (List Part)) (arg : Bytes) : Except RErr (List Part) :=
-  match loop t base (arg.length + 1) arg {} with
+def compileRange (fx : RFix) (t : RType) (base : Option (List Part)) (arg : Bytes) : Except RErr (List Part) :=
+  match loop fx t base (arg.length + 1) arg {} with
   | .error e => .error e
   | .ok (parts, done) =>
     match base with
@@ -203,12 +211,12 @@ def compileRange (t : RType) (base : Option (List Part)) (arg : Bytes) : Except 
       | .ok false => .error .valid
 
 /-- a typedef chain: each restriction is compiled against the result of the previous one; error = (level, kind) -/
-def compileChain (t : RType) : Option (List Part) → Nat → List Bytes → Except (Nat × RErr) (Option (List Part))
+def compileChain (fx : RFix) (t : RType) : Option (List Part) → Nat → List Bytes → Except (Nat × RErr) (Option (List Part))
   | base, _, [] => .ok base
   | base, k, a :: rest =>
-    match compileRange t base a with
+    match compileRange fx t base a with
     | .error e => .error (k, e)
-    | .ok p => compileChain t (some p) (k + 1) rest
+    | .ok p => compileChain fx t (some p) (k + 1) rest
 
 /-- `lyplg_type_validate_range` (the walk assumes ascending parts) -/
 def validate : List Part → Int → Bool
